@@ -51,12 +51,25 @@ def ranking(r):
 _R = {}
 
 
+class FinalBM25F(scoring.BM25F):
+    """final() hook that rescales by a stored field of the hit (raises scores: the top-N threshold is then not a bound on raw scores)"""
+    use_final = True
+
+    def final(self, searcher, docnum, score):
+        return score * (1.0 + (searcher.stored_fields(docnum).get("n") or 0) / 1000.0)
+
+
+def _fn_weight(searcher, fieldname, text, matcher):
+    return matcher.weight() * 1.5 + 0.25
+
+
 def reverse_searchers():
     """ReverseWeighting (scores negated: the exhaustive ranking is worst-first) on the multi-segment layouts"""
     if not _R:
         for name in ("del", "three"):
             ix = C.build_layout(name)
-            for wn, w in (("Reverse(BM25F)", scoring.ReverseWeighting(scoring.BM25F())), ("Reverse(TF_IDF)", scoring.ReverseWeighting(scoring.TF_IDF()))):
+            for wn, w in (("Reverse(BM25F)", scoring.ReverseWeighting(scoring.BM25F())), ("Reverse(TF_IDF)", scoring.ReverseWeighting(scoring.TF_IDF())),
+                          ("Final(BM25F)", FinalBM25F()), ("Function", scoring.FunctionWeighting(_fn_weight))):
                 _R[(name, wn)] = ix.searcher(weighting=w)
     return _R
 
@@ -179,17 +192,18 @@ def c05_boosted(op: int, a: int, b: int, bc: int) -> Optional[str]:
     return r
 
 
-@h(bounds="op(a, b) under ReverseWeighting(BM25F) and ReverseWeighting(TF_IDF) (negative scores): 8 operators, a, b over 6 leaves; k in 1..3; layouts del/three; "
-          "plain and terms=True; pruning must not engage (a reversed scorer has no upper bound), so only the result is asserted",
+@h(bounds="op(a, b) under ReverseWeighting(BM25F), ReverseWeighting(TF_IDF) (negative scores), a BM25F subclass with a final() hook that rescales by a stored field, "
+          "and FunctionWeighting: 9 operators (incl. Or(Not a, b)), a, b over 7 leaves (incl. Every(field)); k in 1..3; layouts del/three; "
+          "plain and terms=True; these scorers have no usable upper bound, so only the result is asserted",
    funcs=FUNCS + ["whoosh.scoring.ReverseWeighting"], examples=[dict(op=1, a=0, b=1)], outside=OUT, timeout=dict(quick=900, thorough=1800))
 def c05_reverse(op: int, a: int, b: int) -> Optional[str]:
     """
-    pre: 0 <= op < 8 and 0 <= a < 6 and 0 <= b < 6
+    pre: 0 <= op < 9 and 0 <= a < 7 and 0 <= b < 7
     post: _ is None
     """
     with notrace():
-        o = C.OPS[SCORED_OPS[pick(op, 8)]]
-        la, lb = LEAVES[BL[pick(a, 6)]], LEAVES[BL[pick(b, 6)]]
+        o = C.OPS[(SCORED_OPS + [8])[pick(op, 9)]]
+        la, lb = LEAVES[(BL + [17])[pick(a, 7)]], LEAVES[(BL + [17])[pick(b, 7)]]
         r = check_topn(o[1](la[1](), lb[1]()), "%s(%s, %s)" % (o[0], la[0], lb[0]), fast=True, S=reverse_searchers())
         r = r[0] if isinstance(r, tuple) else r
     tick(True)
